@@ -452,6 +452,11 @@ func (m *C04Monitor) AfterCommit(c *Chain, ctx sdk.Context, br *BlockResult) {
 		if tr.Code == 0 || (i == 0 && br.Height > 1) {
 			continue
 		}
+		// a transaction whose signer cannot pay the fee fails in the ante handler with the same words: only failures of
+		// the message itself count
+		if !strings.Contains(tr.Log, "failed to execute message") {
+			continue
+		}
 		if strings.Contains(tr.Log, "insufficient funds") || strings.Contains(tr.Log, "negative coin amount") {
 			tx, err := a.TxConfig().TxDecoder()(br.Txs[i])
 			if err != nil {
